@@ -38,6 +38,7 @@ type op struct {
 
 type res struct {
 	I, A, S string
+	M       string // model of the standard-library namesake (third driver column), "-" if none
 }
 
 var (
@@ -105,7 +106,10 @@ func runShard(ops []op, out []res, hangAt *atomic.Int64, base int) error {
 		if k < 0 {
 			return fmt.Errorf("driver: malformed answer %q for %q", line, ops[n].Line())
 		}
-		out[n].A, out[n].S = line[:k], line[k+1:]
+		out[n].A, out[n].S, out[n].M = line[:k], line[k+1:], "-"
+		if k2 := strings.IndexByte(out[n].S, '\t'); k2 >= 0 {
+			out[n].S, out[n].M = out[n].S[:k2], out[n].S[k2+1:]
+		}
 		n++
 	}
 	if err := cmd.Wait(); err != nil {
@@ -126,7 +130,7 @@ func opLineAt(ops []op, n int) string {
 }
 
 type violation struct {
-	Kind string // "I!=S", "I!=A", "I!=std", "identity", "parity", "PANIC", "HANG"
+	Kind string // "I!=S", "I!=A", "I!=std", "std!=M", "identity", "parity", "PANIC", "HANG"
 	Op   string
 	I    string
 	A    string
@@ -259,6 +263,10 @@ wait:
 		if !*flagNoA && r.A != "-" && r.A != r.I {
 			viols = append(viols, violation{Kind: "I!=A", Op: o.Line(), I: r.I, A: r.A, S: r.S, Fam: o.Fam})
 		}
+		// the Lean model of the standard-library namesake against the real standard library
+		if !*flagNoA && o.Std != "" && r.M != "-" && r.M != "" && r.M != o.Std {
+			viols = append(viols, violation{Kind: "std!=M", Op: o.Line(), I: r.I, A: r.A, S: r.S, Std: o.Std, Note: "std-model=" + r.M, Fam: o.Fam})
+		}
 	}
 	viols = append(viols, groupChecks(*flagProp, ops, results)...)
 	report(viols, ops, results, start, scale)
@@ -306,7 +314,7 @@ func report(viols []violation, ops []op, results []res, start time.Time, scale i
 	fnCount := map[string]int{}
 	kinds := map[string]int{}
 	lenHist := map[string]int{}
-	withA, withS := 0, 0
+	withA, withS, withM := 0, 0, 0
 	for i, o := range ops {
 		h := hashStr(o.Line())
 		distinct[h] = true
@@ -318,6 +326,9 @@ func report(viols []violation, ops []op, results []res, start time.Time, scale i
 		}
 		if r.S != "-" && r.S != "" && !o.NoS {
 			withS++
+		}
+		if r.M != "-" && r.M != "" && o.Std != "" {
+			withM++
 		}
 		if r.I != "" && !trivial(r.I) && len(o.Args) > 0 && o.Args[0] != "-" {
 			nontriv[h] = true
@@ -365,6 +376,7 @@ func report(viols []violation, ops []op, results []res, start time.Time, scale i
 		"arg1_length_hist":         lenHist,
 		"ops_with_algorithm_model": withA,
 		"ops_with_specification":   withS,
+		"ops_with_std_model":       withM,
 		"scale":                    scale,
 		"config":                   impl.CfgSuffix(),
 		"goarch":                   runtime.GOARCH,
@@ -411,7 +423,7 @@ func report(viols []violation, ops []op, results []res, start time.Time, scale i
 	for _, w := range viols[:min(len(viols), 5)] {
 		fmt.Printf("DISAGREEMENT kind=%s op=%q I=%s A=%s S=%s std=%s %s\n", w.Kind, w.Op, w.I, w.A, w.S, w.Std, w.Note)
 	}
-	if v.Kind == "I!=A" {
+	if v.Kind == "I!=A" || v.Kind == "std!=M" {
 		fmt.Printf("CORRESPONDENCE-BROKEN property=%s replay=%s\n", *flagProp, path)
 		os.Exit(3)
 	}
@@ -420,7 +432,7 @@ func report(viols []violation, ops []op, results []res, start time.Time, scale i
 }
 
 func rank(k string) int {
-	if k == "I!=A" {
+	if k == "I!=A" || k == "std!=M" {
 		return 1
 	}
 	return 0
